@@ -92,8 +92,8 @@ func ZZ_C04_resolver_single() {
 	p := zzrMakePrimary(s, t, pstate)
 
 	l := &Lock{Key: []byte("m"), Primary: t.primary, TxnID: start, TTL: zzrTTL("lock.ttl"), TxnSize: 1, LockType: kvrpcpb.Op_Put}
-	if zzBool("lock.large") {
-		l.TxnSize = 1000
+	if !pess && zzBool("lock.large") {
+		l.TxnSize = 1000 // (the size is not looked at for pessimistic locks)
 	}
 	if pess {
 		l.LockType = kvrpcpb.Op_PessimisticLock
@@ -112,6 +112,8 @@ func ZZ_C04_resolver_single() {
 
 	caller := zzU64("caller.start")
 	mode := zzChoice("mode", 4)
+	// lite only matters for prewrite locks, region-wide pessimistic rollback only for pessimistic ones
+	zzAssume((mode != 2 || !pess) && (mode != 3 || pess))
 	bo := retry.NewBackoffer(context.Background(), 20)
 	opts := ResolveLocksOptions{CallerStartTS: caller, Locks: []*Lock{l}}
 	switch mode {
